@@ -71,7 +71,7 @@ func init() {
 			key := types.NewPointer(impl).String()
 			r.Check(cases[key], "CreateExecutor:case:"+impl.Obj().Name(), "CreateExecutor has a case for plan node "+impl.Obj().Name(), "no case for "+key+": the engine would return a nil executor")
 		}
-		r.Floor("plan node types", n, 14)
+		r.Floor("plan node types", n, 10)
 		check := func(what string, enumT *types.Named, fns []*ssa.Function, subj func(ssa.Value) bool, skip map[string]bool, floor int) {
 			enum := enumConsts(w, enumT)
 			set := map[int64]bool{}
